@@ -140,6 +140,25 @@ def check(rep: Report, ctx: Ctx) -> None:
                    wrapper.short in x.chain, fi=x.func, node=x.node,
                    path=x.chain, detail="call chain " + x.where())
 
+    # ---- R15.7 ---------------------------------------------------------------
+    # re-ingesting the same files is a no-op only if the recovery path removes
+    # *every* span that is already stored, whatever else the batch contains:
+    # the filter-skeleton obligations of C10 (R10.6) are premises of C15 too.
+    rep.rule("R15.7", "the duplicate recovery that makes re-ingestion a "
+             "no-op is complete (first occurrence kept, stored ids looked up "
+             "on every path and removed, links rebuilt from the survivors)",
+             8)
+    from . import c10 as _c10
+    sub = Report("C10", ctx.index)
+    sub.rule("R10.6", "filter skeleton", 1)
+    _c10._filter(sub, ctx, ctx.func(
+        "SQLDataHolder.check_and_filter_non_unique_nodes_and_associations"),
+        ctx.func("SQLDataHolder.commit_batched_data_to_database"))
+    for o in sub.obligations:
+        o.rule = "R15.7"
+        rep.obligations.append(o)
+    rep.funcs_seen |= sub.funcs_seen
+
     # ---- R15.5 ---------------------------------------------------------------
     rep.rule("R15.5", "opening the store never resets it", 2)
     fetch = ctx.func("fetch_data_holder")
